@@ -126,6 +126,19 @@ def clen(t, depth=0):
             return padd(rb[1], rb[0], -1)
     if k == 'const' and isinstance(t[1], (bytes, bytearray, str)):
         return const(len(t[1]))
+    if k == 'field' and t[1].isdigit() and _strip(t[2]).tag == 'elem' and _strip(_strip(t[2])[1]).tag == 'array':
+        # component of an element of a literal array of tuples: the same length for every element, or not a length
+        arr = _strip(_strip(t[2])[1])
+        ls = set()
+        for e_ in arr.args:
+            e0 = _strip(e_)
+            if e0.tag != 'tuple' or int(t[1]) >= len(e0.args):
+                raise NoLen('array element')
+            p_ = clen(e0.args[int(t[1])], depth + 1)
+            ls.add(tuple(sorted(p_.items())))
+        if len(ls) == 1:
+            return dict(ls.pop())
+        raise NoLen('elements of different lengths')
     if k == 'call' and t[1].split('::')[-1] in ('to_vec', 'to_owned', 'into_vec', 'as_slice', 'as_ref', 'deref', 'borrow', 'as_mut', 'deref_mut', 'as_bytes_slice') and len(t[2]) == 1:
         return clen(t[2][0], depth + 1)
     if k == 'call' and ENGINE is not None and t[1] in ENGINE.facts.fn and depth < 20:
